@@ -23,7 +23,7 @@ ARRAY_MUT = (r"starlark::values::types::array::Array::<'v>::"
 
 def r1_freeze(ctx, F, vb):
     impls = [i for i in F.impls if re.search(FREEZE_TRAIT, i["trait"]) and i["crate"] == "starlark"]
-    ctx.floor("C04.R1", "FreezeBranded impls", len(impls), 51)
+    ctx.floor("C04.R1", "FreezeBranded impls", len(impls), 51, inventory=True)
     n = 0
     for i in impls:
         if i["selfadt"] == "-":
@@ -55,7 +55,7 @@ def r1_freeze(ctx, F, vb):
                       "the body freezes its children (calls a freeze function)",
                       "FreezeBranded::freeze of %s reads its fields but never calls a freeze function on them"
                       % adt.path, fn=f)
-    ctx.floor("C04.R1", "local ADTs with a FreezeBranded impl", n, 29)
+    ctx.floor("C04.R1", "local ADTs with a FreezeBranded impl", n, 29, inventory=True)
 
     # heap_freeze protocol
     hfs = [g for g in F.fns.values() if re.search(r"AValue<'v>>::heap_freeze$", g.qpath)]
@@ -195,7 +195,7 @@ def r2_list(ctx, F):
                         "a %s mutator (`%s`) is called on a receiver that does not come from "
                         "ListData::from_value_mut (which fails for frozen lists and lists under iteration): %s"
                         % (what, c.name.split("::")[-1], sorted(kinds)), fn=f, line=c.line)
-    ctx.floor("C04.R2", "external list/array mutator call sites", n, 15)
+    ctx.floor("C04.R2", "external list/array mutator call sites", n, 15, inventory=True)
     # from_value_mut: check_can_mutate dominates the Ok return, and its error is propagated
     fvm = F.one(r"list::value::ListData::<'v>::from_value_mut$")
     cm = calls_by_name(fvm, r"ListData::<'v>::check_can_mutate$")
@@ -305,7 +305,7 @@ def cell_accessors(F, adt_path, field):
 def r4_interior(ctx, F, prop_rule="C04.R4"):
     us = [i for i in F.impls if i["safety"].startswith("Unsafe") and re.search(r"marker::Sync$", i["trait"])
           and i["crate"] == "starlark"]
-    ctx.floor(prop_rule, "unsafe impl Sync in starlark", len(us), 12)
+    ctx.floor(prop_rule, "unsafe impl Sync in starlark", len(us), 12, inventory=True)
     vb = ValueBearing(F)
     RACE_FREE = re.compile(r"^(std::sync::atomic::|std::sync::(Mutex|RwLock|OnceLock|LazyLock|Once)<|once_cell::sync::|"
                            r"parking_lot::|std::marker::PhantomData)")
